@@ -79,6 +79,8 @@ def gen(rng, tier):
                                        "k": rng.randrange(prog["n_kinds"]), "daemon": rng.random() < 0.1}
                                       for _ in range(rng.randint(1, 3))]}
                           for _ in range(rng.randint(1, 3))]
+        prog["inject_cont"] = rng.choice(["resume", "resume", "step", "step", "run"])
+        prog["inject_step"] = rng.choice([1, 1, 2, 5])
     return prog
 
 
@@ -113,6 +115,8 @@ def _validate(sc):
             raise InvalidScenario("initial out of range")
     if sc.get("inject") and sc.get("mode") != "control":
         raise InvalidScenario("injection needs the control surface")
+    if sc.get("inject_cont", "resume") not in ("resume", "step", "run") or sc.get("inject_step", 1) < 1:
+        raise InvalidScenario("bad continuation")
     for inj in sc.get("inject", []):
         if inj["after"] < 0 or any(not ok_emit(e) or "prep" in e for e in inj["events"]):
             raise InvalidScenario("bad injection")
@@ -178,8 +182,8 @@ def run_engine(sc):
         guard = 0
         while ctl.is_paused:
             guard += 1
-            if guard > 100:
-                raise RuntimeError("harness: paused more often than pauses were requested")
+            if guard > 400:
+                raise RuntimeError("harness: paused more often than pauses and steps were requested")
             emits = plan.pop(n[0], None)
             if emits is not None:
                 now = pr.entities[0].now.nanoseconds
@@ -194,7 +198,15 @@ def run_engine(sc):
                 else:
                     for e in evs:
                         sim.schedule(e)
-            summary = ctl.resume()
+            # how the run is continued after the pause must not matter: resume(), step(k) (pauses again k
+            # deliveries later, then resumed) or a plain run()
+            how = sc.get("inject_cont", "resume") if emits is not None else "resume"
+            if how == "step":
+                summary = ctl.step(sc.get("inject_step", 1))
+            elif how == "run":
+                summary = sim.run()
+            else:
+                summary = ctl.resume()
         return pr, summary, sim
     if sc.get("mode") == "control":
         sim.control.on_event(lambda e: None)
